@@ -32,8 +32,12 @@ theorem fault_index_intact (fl : Flavour) (key : Bytes) (o : WriteOpts) (chunks 
     GrowingAny cfg cache key b0 (runFault env plan (writeStream cfg cache fl (some key) o chunks) fs 0).2.1 :=
   (wpD_fault (writeStream_keyed_wp cfg env cache fl key o chunks b0 hv hb) plan 0).1.2
 
-/-- **No false success**: if a write answers ok under faults, the data's content path exists and
-the key's record was appended whole — the data is retrievable (C02 read-back). -/
+/-- **No false success**: if a write answers ok under faults, the data's content path EXISTS
+(`StreamPost`: `(fs'.get cpath).isSome` — some node is there) and the key's record was appended
+whole.  Retrievability of the DATA needs in addition that the node at the address is a regular
+file (`some (.file b)`), which is the hypothesis of the end-to-end theorems
+(`C02.faulty_write_then_read_by_key`) and a conclusion of the refinement on a healthy cache
+(`C13x`, `CacheRefine`). -/
 theorem fault_success_is_truthful (fl : Flavour) (key : Bytes) (o : WriteOpts) (chunks : List Bytes)
     (b0 : Bytes) (fs : FS) (hv : ContentValid cfg cache fs)
     (hb : BucketIs fs (bucketPath cfg cache key) b0) (plan : Nat → Option Fault) :
@@ -48,9 +52,11 @@ theorem fault_read_sound (fs : FS) (plan : Nat → Option Fault) (sri : Integrit
     (h : (runFault env plan (readHash cfg cache sri) fs 0).1 = .ok b) : C01.Passes cfg sri b :=
   (C01.readHash_sound_run cfg env fs plan cache sri b).2 h
 
-/-- **Other entries are unaffected**: whatever fails, a keyed write aims no call outside the
-cache directory, and nothing in the index area other than … its own phases allow: a writer that
-never reaches the index phase leaves the whole index area untouched. -/
+/-- **A writer that never commits leaves the index alone** (this theorem is about `C14.abandon`:
+open, feed, drop — no commit): whatever fails, every path of the index area is exactly as before.
+"Other entries are unaffected" for a COMMITTED keyed write under faults — every other key looks
+up as before, the content of other addresses is untouched — is `C13x.faulty_write_leaves_others`
+(on the abstract states `C13x.faulty_write_leaves_admissible_state` relates the run to). -/
 theorem fault_abandon_leaves_index (fs : FS) (fl : Flavour) (key : Option Bytes) (o : WriteOpts)
     (fed : List Bytes) (q : Path) (hq : InArea cache dIndex q) (plan : Nat → Option Fault) :
     (runFault env plan (C14.abandon cfg fl cache key o fed) fs 0).2.1.get q = fs.get q :=
